@@ -389,6 +389,7 @@ def read_import(file, *targets):
   finally:
     if _dir: os.chdir(curdir)
     sys.path.pop()
+    sys.modules.pop(file, None) # a rewritten file must be read again
   if not len(results): return None
   return results[-1] if (len(results) == 1) else results
 
